@@ -12,10 +12,14 @@ import warnings
 
 import numpy as np
 
+import common
 from common import Ctx, Finding, Outcome
 
+import c20_spec
+
 PROPERTY = "C20"
-LEAN_TARGETS = ["QcelVerif.Props.C20", "QcelVerif.Driver.C20"]
+LEAN_TARGETS = ["QcelVerif.Props.C20", "QcelVerif.Props.C20Spec", "QcelVerif.Props.C20Elems", "QcelVerif.Driver.C20"]
+TRANSLATORS = [c20_spec.gen_result_spec]
 DRIVER = "QcelVerif/Driver/C20.lean"
 THEOREMS = [
     ("QcelVerif.Protocols.reshapeExact_ok_iff", "reshape to a full shape is accepted iff the sizes agree, and then yields exactly that shape (size preserved)"),
@@ -34,7 +38,7 @@ THEOREMS = [
     ("QcelVerif.Protocols.wfn_none_drops", "protocol none keeps no wavefunction"),
     ("QcelVerif.Protocols.wfn_rejects_iff_dangling", "the protocol filter rejects (validation error at `wavefunction`, never another exception) exactly when a selected pointer names an array that is not (any longer) supplied"),
     ("QcelVerif.Protocols.wfn_idempotent", "applying a wavefunction protocol to its own output returns it unchanged (all five protocols)"),
-    ("QcelVerif.Protocols.wfn_shapes", "accepted WavefunctionProperties: AO matrices (h_core, h_effective, density, fock, coulomb, exchange) are [nbf,nbf], scf_orbitals [nbf, size/nbf], eigenvalues/occupations flat; sizes preserved; presence and pointers unchanged; nbf = computed"),
+    ("QcelVerif.Protocols.wfn_shapes", "accepted WavefunctionProperties: AO matrices (h_core, h_effective, density, fock, coulomb, exchange) are [nbf,nbf], scf_orbitals and localized_orbitals [nbf, size/nbf], eigenvalues/occupations flat, localized_fock as supplied; sizes preserved; presence and pointers unchanged; nbf = computed"),
     ("QcelVerif.Protocols.validateWfn_idem", "re-validating accepted WavefunctionProperties changes nothing (shapes, pointers, basis)"),
     ("QcelVerif.Protocols.stdout_keeps", "stdout kept unchanged iff requested; idempotent"),
     ("QcelVerif.Protocols.native_keeps", "native files: all -> unchanged, none -> empty, input -> only 'input' with its supplied content; idempotent"),
@@ -42,35 +46,93 @@ THEOREMS = [
     ("QcelVerif.Protocols.trajectory_sublist", "whatever a trajectory policy returns is a sub-list of the trajectory (never raises, never duplicates)"),
     ("QcelVerif.Protocols.trajectory_idempotent", "each trajectory policy applied twice equals applied once"),
     ("QcelVerif.Protocols.atomicResult_revalidate", "an accepted AtomicResult dumped and validated again (same protocols, driver) is accepted and identical — unconditionally"),
+    # ---- Props/C20Spec.lean: over Gen/ResultSpec.lean, regenerated from the source text on every run
+    ("QcelVerif.ResultSpec.field_names_unique", "generated tables: field names of AtomicResultProperties and of WavefunctionProperties are unique"),
+    ("QcelVerif.ResultSpec.declared_shape_units_agree", "where an Array field carries both shape= and units=, the shape class read from the units equals the declared shape"),
+    ("QcelVerif.ResultSpec.props_shape_complete", "COMPLETENESS: every Array field of AtomicResultProperties declares (nat,3) / (3nat,3nat) / (3,) / (3,3) (by shape= or units=) and exactly one validator is attached to it, applying exactly that reshape — no exceptions"),
+    ("QcelVerif.ResultSpec.wfn_shape_complete", "COMPLETENESS: every Array field of WavefunctionProperties declares (nao,nao) / (nao,nmo) / (nmo,) / (nmo,nmo) and exactly one validator applies exactly the demanded reshape — except localized_fock_a/b (nmo x nmo: no rule can exist), named in the statement, which have no validator"),
+    ("QcelVerif.ResultSpec.wfn_unvalidated_classes", "the (nmo,nmo) fields are exactly localized_fock_a/b, and they are the only array fields of WavefunctionProperties without a validator"),
+    ("QcelVerif.ResultSpec.props_validators_sound", "SOUNDNESS: every name in a decorator list of AtomicResultProperties is an Array field whose declared shape demands exactly the rule the validator body applies for that name; all are plain post-validators"),
+    ("QcelVerif.ResultSpec.wfn_validators_sound", "SOUNDNESS: likewise for WavefunctionProperties; a validator on a string field is the target-exists check"),
+    ("QcelVerif.ResultSpec.model_prop_table_eq", "the model's PropArr.all / propRule table equals the generated (array field -> validator rules) table of AtomicResultProperties, in declaration order"),
+    ("QcelVerif.ResultSpec.model_wfn_table_eq", "the model's ArrKey.all / arrRule table (incl. `unvalidated`) equals the generated table of WavefunctionProperties, in declaration order"),
+    ("QcelVerif.ResultSpec.gen_prop_rule_agrees", "for every properties array field, natom and shape: the generated rule interpreted with numpy reshape semantics = the model's applyPropRule"),
+    ("QcelVerif.ResultSpec.gen_wfn_rule_agrees", "for every wavefunction array field, nbf (or failed basis) and shape: the generated rule interpreted with numpy reshape semantics = the model's applyArrRule"),
+    ("QcelVerif.ResultSpec.wfn_field_order", "WavefunctionProperties declares basis, restricted, then exactly the model's 22 array keys, then exactly its 10 pointer keys (pointers last, so `values` holds what each validator reads)"),
+    ("QcelVerif.ResultSpec.pointer_targets_exist", "every return-pointer field x_s has its natural target scf_x_s among the array fields with the matching declared shape; the model's target universe is exactly the set of array field names"),
+    ("QcelVerif.ResultSpec.natom_before_derivatives", "calcinfo_natom is an Optional[int] declared before every array field of AtomicResultProperties"),
+    ("QcelVerif.ResultSpec.enums_eq_generated", "WavefunctionProtocolEnum, DriverEnum, NativeFilesProtocolEnum, TrajectoryProtocolEnum have exactly the members of the model's inductive types"),
+    ("QcelVerif.ResultSpec.keep_lists_eq_generated", "the per-protocol branch (all / none / keep list) of _wavefunction_protocol for every enum member equals the model's keepList; dropped suffix `_b`; always-copied keys restricted, basis"),
+    ("QcelVerif.ResultSpec.wfnProtocol_follows_spec", "the branch table compared with the source really is the branch structure of the model's wfnProtocol (for every wavefunction)"),
+    ("QcelVerif.ResultSpec.return_results_names_eq", "_return_results_names, the decorator list of _assert_exists and the model's pointer keys are the same set"),
+    ("QcelVerif.ResultSpec.rr_rules_agree", "for every driver and return value: the reshape read from _validate_return_result for that DriverEnum member, interpreted with numpy semantics, = the model's validateRR"),
+    ("QcelVerif.ResultSpec.trajectory_generated_agrees", "for every policy and trajectory of any length: the branch read from _trajectory_protocol with Python indexing = the model's trajectoryProtocol"),
+    ("QcelVerif.ResultSpec.native_stdout_eq_generated", "the native_files and stdout branches read from the source equal the model's nativeProtocol / stdoutProtocol"),
+    # ---- Props/C20Elems.lean: element-level model (array = shape + row-major element sequence)
+    ("QcelVerif.Protocols.reshape_preserves_elements", "reshape is the identity on the row-major element sequence and yields the shape the shape model computes"),
+    ("QcelVerif.Protocols.reshape_wellformed", "with a list of elements as payload, every reshape the validators perform keeps `number of elements = product of the shape`"),
+    ("QcelVerif.Protocols.validatePropsE_shapes", "forgetting the elements, element-level AtomicResultProperties validation is the shape model's (same verdict, failing fields, shapes)"),
+    ("QcelVerif.Protocols.validatePropsE_data", "every array of an accepted properties object holds exactly the elements supplied under the same name"),
+    ("QcelVerif.Protocols.wfnProtocolE_shapes", "forgetting the elements, the element-level wavefunction protocol is the shape model's wfnProtocol"),
+    ("QcelVerif.Protocols.wfnProtocolE_retains", "the wavefunction protocol does not alter retained arrays: what is kept under a key is exactly (shape and elements) the array supplied under that key"),
+    ("QcelVerif.Protocols.validateWfnE_shapes", "forgetting the elements, element-level WavefunctionProperties validation is the shape model's validateWfn"),
+    ("QcelVerif.Protocols.validateWfnE_data", "every array of accepted WavefunctionProperties holds exactly the elements supplied under the same name"),
+    ("QcelVerif.Protocols.validateRRE_shapes", "forgetting the elements, element-level return_result validation is the shape model's validateRR"),
+    ("QcelVerif.Protocols.validateRRE_data", "the validated return value holds exactly the supplied row-major elements (gradient, Hessian, unchanged otherwise)"),
+    ("QcelVerif.Protocols.atomicResultE_shapes", "forgetting the elements, element-level AtomicResult construction is the shape model's atomicResult (same verdict, error locations, shapes, retained keys) — all C20 theorems transfer"),
+    ("QcelVerif.Protocols.atomicResultE_data", "in an accepted AtomicResult every properties array, every retained wavefunction array and the return value hold exactly the row-major elements supplied under the same name"),
 ]
 TRUSTED_BASE = [
     "Lean 4.33 kernel; axioms per theorem audited on every run (subset of propext, Classical.choice, Quot.sound)",
-    "hand-written model Model/Protocols.lean of results.py / procedures.py / basis.py validators, tied by differential correspondence on the generated stream (retained key sets, shapes, error class and failing locations)",
-    "pydantic v1 semantics (field order, failed fields absent from `values`, ValueError collected / other exceptions escape) and numpy reshape rules are folded into the model as parameters and checked differentially",
-    "harness/c20.py generators and the Python oracle",
+    "hand-written models Model/Protocols.lean (shapes) and Model/ProtocolsElems.lean (shapes + row-major elements) of results.py / procedures.py / basis.py validators. "
+    "REGENERATED FROM THE SOURCE on every run and compared in Lean (Props/C20Spec.lean): which field gets which reshape rule, the guard when calcinfo_natom / basis is missing, "
+    "field universes and declaration order, per-protocol keep lists, dropped suffix, driver -> return_result rule, trajectory / native_files / stdout branches, enum members. "
+    "Still tied only by differential correspondence: the control flow around those tables (pydantic collecting errors, failed fields absent from `values`, the keep loop and its dangling check, "
+    "BasisSet validators and nfunctions) — on the generated stream (retained key sets, shapes, element digests, error class and failing locations)",
+    "harness/c20_spec.py (translator): reads the text by `ast`, evaluates each validator body symbolically per attached field name (reshape arguments, `is None` guards); unknown constructs are a "
+    "translator error or a `.other` rule (both fail the run). Its field lists, shape/units keywords, required flags and validator attachments are cross-checked on every run against the live classes "
+    "(`__fields__`, `__validators__`); a translator bug in the rule extraction would show as a failed `decide` (the model tables are independent) or as a correspondence disagreement",
+    "numpy semantics as parameters: reshape succeeds iff sizes agree / the known part divides the size (`npReshape` in Props/C20Spec.lean), and C-order reshape leaves the row-major element sequence "
+    "unchanged whatever the memory layout (`Arr.reshapeWith`) — checked differentially with C-contiguous, Fortran-ordered, strided-view and nested-list inputs",
+    "pydantic v1 semantics (field order, failed fields absent from `values`, ValueError collected / other exceptions escape) folded into the models and checked differentially",
+    "harness/c20.py generators and the Python oracle; element digests are SHA-1 (12 hex digits) of the float64 row-major bytes",
 ]
 ASSUMPTIONS = [
-    "arrays are abstracted to their shapes in the model; element values are checked for preservation by the oracle only",
+    "element values: modelled (payload carried through reshape and protocols, theorems *_data / *_retains) and tied by digest on the AE / PE streams; the A / P streams still compare shapes only (plus the oracle's own element comparison)",
     "return pointers name wavefunction array fields (any of the 22), calcinfo_natom >= 0, well-formed shells (non-empty angular_momentum/exponents/coefficients), protocols objects themselves valid",
-    "array inputs are C-contiguous ndarrays or lists; hessian sizes < 2^52 so that int(size**0.5) is the exact integer square root",
-    "localized_fock_* (nmo x nmo) has no shape implied by atom count, basis size or driver: no demand; scf_orbitals/localized_orbitals with nbf = 0: no demand (numpy finds (0,-1) ambiguous)",
+    "array inputs are float ndarrays (C-contiguous, Fortran-ordered or strided views; in the AE / PE streams also another factorisation of the right size) or nested lists; "
+    "hessian sizes < 2^52 so that int(size**0.5) is the exact integer square root",
+    "a hessian return_result of any memory layout is reshaped (row-major element order of the logical array) by model and implementation alike (since /repo 5bfcfbf); the AE / PE oracle also demands that the "
+    "caller's own array objects are left untouched (shape and elements) — a demand about the inputs that the Lean model, being functional, does not express",
+    "localized_fock_* (declared nmo x nmo) has no shape implied by atom count, basis size or driver and no reshape rule can exist: no demand (the one explicit exception in wfn_shape_complete); "
+    "localized_orbitals_* (declared nao x nmo) is demanded and modelled like scf_orbitals (validator added in /repo ddb6df6); scf_orbitals/localized_orbitals with nbf = 0: no demand (numpy finds (0,-1) ambiguous)",
+    "an Array field of AtomicResultProperties without shape= is classified by its units= (E_h/a0 gradient, E_h/a0^2 Hessian, e a0 dipole, e a0^2 quadrupole); the classification is a Lean definition (unitsShape) visible next to the completeness theorem",
     "a native_files entry whose value is None ({'input': None}) is a placeholder, not a retained file",
     "for the energy / properties drivers no shape is implied: return values are a float, a dict or a 1-D array; wavefunctions over an empty basis (nbf = 0) are not generated",
+    "scalar (non-array) fields of AtomicResultProperties are not generated; that no validator is attached to one is proved from the source text (props_validators_sound), not exercised",
 ]
 RULE = (
     "A-cases: full product of 5 wavefunction protocols x stdout on/off x 3 native policies x restricted/unrestricted x 4 drivers "
     "(240 combinations), each with K random payloads: random subset of the 22 wavefunction arrays (flat / shaped / other-shaped / "
     "wrong size), random subset of the 10 pointers (natural, crossed, other-spin or dangling targets), random basis (spherical/cartesian, "
     "fused and general contractions, nbf right/wrong/absent, occasional unknown centre or bad shell), properties arrays with/without "
-    "calcinfo_natom, return_result per driver, stdout and native files supplied or not; B-cases: basis sets alone; P-cases: properties alone; "
+    "calcinfo_natom, return_result per driver, stdout and native files supplied or not; AE-cases: the same product with K/4 payloads, every array "
+    "carrying the digest of its row-major elements and built in a random memory layout (C, Fortran, strided view, nested list); PE-cases: properties alone, likewise; "
+    "B-cases: basis sets alone; P-cases: properties alone; "
     "T-cases: 4 trajectory policies x 0..6 steps (exhaustive). A case is distinct by its line; non-trivial when a filter removes something, "
-    "an array needs reshaping, or the outcome is a rejection."
+    "an array needs reshaping, a layout is given, or the outcome is a rejection."
 )
 LEVEL_TEXT = (
-    "proof (about the model) of shape rules, exact-retention characterisations, idempotence of every protocol and of re-validation, "
-    "nbf consistency; differential correspondence for the tie to the code (retained key sets, shapes, error class, failing locations)"
+    "proof (about the models) of shape rules, exact-retention characterisations, idempotence of every protocol and of re-validation, "
+    "nbf consistency, and that reshape / protocols / validation never alter the row-major elements of a retained array; "
+    "proof by kernel evaluation over tables regenerated from the source text on every run that every declared array shape has exactly its validator "
+    "(completeness, with localized_fock nmo x nmo as the one named exception), that no validator sits on a wrong field (soundness), and that the model's "
+    "field->rule tables, keep lists, driver / trajectory / native / stdout branches and enum members equal the source's; "
+    "partial: the control flow around those tables (pydantic error collection, keep loop, basis validators) is tied by differential correspondence only "
+    "(retained key sets, shapes, element digests, error class, failing locations)"
 )
-TECHNIQUE = "Lean 4 proof over abstract payloads (key sets, shapes, pointer targets) + line-protocol differential correspondence + independent oracle"
+TECHNIQUE = ("Lean 4 proof over abstract payloads (key sets, shapes, pointer targets, row-major element sequences) + ast translator of field/validator/protocol tables with `decide` "
+             "theorems + line-protocol differential correspondence + independent oracle")
 
 warnings.simplefilter("ignore")
 
@@ -105,6 +167,16 @@ KIND_TRAJ_SINGLE = "oracle:trajectory_single_step_duplicated"
 KIND_NATIVE_REVAL = "oracle:revalidate_native_input_placeholder"
 KIND_DIPOLE = "oracle:unvalidated_dipole"
 KIND_AO = "oracle:unvalidated_ao_matrix"
+# Repaired in /repo ddb6df6 (found by Props/C20Spec.lean: wfn_shape_complete): localized_orbitals_a/b, declared
+# shape=["nao","nmo"] like scf_orbitals_a/b, were missing from the decorator list of `_assert2d_nao_x`. A regression is
+# reported under its own kind, like the dipole / AO-matrix ones above; nothing is tolerated.
+UNVALIDATED_LOCORB = {"localized_orbitals_a", "localized_orbitals_b"}
+KIND_LOCORB = "oracle:unvalidated_localized_orbitals"
+# Repaired in /repo 5bfcfbf: `_validate_return_result` (hessian) assigned `v.shape = (nsq, nsq)` in place; on an array that is
+# not C-contiguous and has another shape numpy raised AttributeError (not collected by pydantic), and a C-contiguous
+# caller's array had its shape changed. Regressions: KIND_HESS_INPLACE / KIND_CALLER_MODIFIED.
+KIND_HESS_INPLACE = "oracle:hessian_return_inplace_shape_attributeerror"
+KIND_CALLER_MODIFIED = "oracle:caller_array_modified"
 
 
 def prod(shape):
@@ -211,6 +283,8 @@ def dec_rr(t):
 
 def enc(spec):
     op = spec["op"]
+    if op in ("AE", "PE"):
+        return enc_E(spec)
     if op == "A":
         files = "N" if spec["files"] is None else ".".join(map(str, spec["files"]))
         return "|".join(["A", spec["wp"], "1" if spec["so"] else "0", spec["nf"], spec["driver"], enc_props(spec["props"]),
@@ -228,6 +302,8 @@ def enc(spec):
 
 def dec(line):
     f = line.split("|")
+    if f[0] in ("AE", "PE"):
+        return dec_E(line)
     if f[0] == "A":
         return {"op": "A", "wp": f[1], "so": f[2] == "1", "nf": f[3], "driver": f[4], "props": dec_props(f[5]), "wfn": dec_wfn(f[6]),
                 "rr": dec_rr(f[7]), "stdout": f[8] == "1", "files": None if f[9] == "N" else [int(x) for x in f[9].split(".") if x]}
@@ -506,13 +582,13 @@ def wfn_implied(name, nbf, shape):
     size = prod(shape)
     if base in ("h_core", "h_effective", "scf_density", "scf_fock", "scf_coulomb", "scf_exchange"):
         return [nbf, nbf]
-    if base == "scf_orbitals":
+    if base in ("scf_orbitals", "localized_orbitals"):  # both declared (nao, nmo): rows implied by the basis size
         if nbf == 0:
             return None
         return [nbf, size // nbf] if size % nbf == 0 else "misfit"
     if base in ("scf_eigenvalues", "scf_occupations"):
         return [size]
-    return None  # localized_* : no demand (nmo unknown to the model; not an nbf x nbf AO matrix)
+    return None  # localized_fock (nmo x nmo): no demand (nmo unknown; not implied by atom count, basis size or driver)
 
 
 def isqrt(n):
@@ -652,6 +728,233 @@ def canon_diff(obs, exp):
     """names of the items on which two `ok …` canonical lines differ"""
     a, b = canon_items(obs), canon_items(exp)
     return sorted(k for k in set(a) | set(b) if a.get(k) != b.get(k))
+
+
+# ----------------------------------------------------------------------------------------------
+# element-carrying cases (ops AE / PE): every array travels with a digest of its row-major element list and with the
+# memory layout the implementation's input is built in; the Lean driver (Model/ProtocolsElems.lean) carries the digest
+# through reshape / protocols, the implementation's outputs are digested the same way and the lines are compared.
+
+LAYOUTS = "cfsl"  # C-contiguous, Fortran-ordered, strided (non-contiguous) view, nested list
+
+
+def tok(a):
+    """digest of the row-major (logical C order) element list"""
+    import hashlib
+
+    return hashlib.sha1(np.ascontiguousarray(np.asarray(a, dtype=np.float64)).tobytes()).hexdigest()[:12]
+
+
+def tok_dict(d):
+    import hashlib
+
+    return hashlib.sha1(json.dumps(d, sort_keys=True).encode()).hexdigest()[:12]
+
+
+def content(name, size):
+    """the row-major element list of the array supplied under `name` (distinct per name, not symmetric)"""
+    off = _OFFSETS.get(name)
+    if off is None:
+        raise ValueError(f"no content offset for {name}")
+    return ((np.arange(size, dtype=np.int64) * 7 + off) % 1009).astype(np.float64) * 0.5 + 0.25
+
+
+def _mk_offsets():
+    import hashlib
+
+    names = PROP_ARRS + ARR_KEYS + ["return_result"]
+    offs = {n: int(hashlib.sha1(n.encode()).hexdigest()[:8], 16) % 1009 for n in names}
+    used = set()
+    for n in names:  # make them distinct (deterministically)
+        while offs[n] in used:
+            offs[n] = (offs[n] + 1) % 1009
+        used.add(offs[n])
+    return offs
+
+
+_OFFSETS = _mk_offsets()
+
+
+def lay_ok(shape, lay):
+    if lay == "l" and len(shape) > 1 and prod(shape) == 0:
+        return False  # a nested list cannot express a zero-sized dimension other than the first
+    if lay == "s" and len(shape) == 0:
+        return False
+    return True
+
+
+def build_layout(name, shape, lay):
+    a = content(name, prod(shape)).reshape(shape)
+    if lay == "c":
+        return a
+    if lay == "f":
+        return np.asfortranarray(a)
+    if lay == "s":
+        v = np.repeat(a, 2, axis=-1)[..., ::2]
+        assert v.shape == a.shape and np.array_equal(v, a)
+        return v
+    if lay == "l":
+        return a.tolist()
+    raise ValueError(lay)
+
+
+def enc_fields_E(lst, lay, sect):
+    return ",".join(f"{n}:{enc_shape(sh)}:{tok(content(n, prod(sh)))}:{lay[sect + '.' + n]}" for n, sh in lst)
+
+
+def dec_fields_E(t, lay, sect):
+    out = []
+    for it in t.split(","):
+        if it.strip():
+            n, sh, tk, ly = it.split(":")
+            shape = dec_shape(sh)
+            if tk != tok(content(n, prod(shape))) or ly not in LAYOUTS:
+                raise ValueError(f"element digest / layout of {n} does not match its content")
+            out.append((n, shape))
+            lay[sect + "." + n] = ly
+    return out
+
+
+RR_F, RR_D = 1.5, {"some_property": 1.0}
+
+
+def enc_rr_E(rr, lay):
+    if rr == "f":
+        return "f:" + tok(np.array(RR_F))
+    if rr == "d":
+        return "d:" + tok_dict(RR_D)
+    return f"{enc_shape(rr)}:{tok(content('return_result', prod(rr)))}:{lay['return_result']}"
+
+
+def dec_rr_E(t, lay):
+    f = t.split(":")
+    if f[0] == "f" and f[1] == tok(np.array(RR_F)):
+        return "f"
+    if f[0] == "d" and f[1] == tok_dict(RR_D):
+        return "d"
+    shape = dec_shape(f[0])
+    if f[1] != tok(content("return_result", prod(shape))) or f[2] not in LAYOUTS:
+        raise ValueError("element digest / layout of return_result does not match its content")
+    lay["return_result"] = f[2]
+    return shape
+
+
+def enc_wfn_E(w, lay):
+    if w is None:
+        return "N"
+    r = "-" if w["restricted"] is None else ("1" if w["restricted"] else "0")
+    b = "-" if w["basis"] is None else enc_basis(w["basis"])
+    return f"{r}~{b}~{enc_fields_E(w['arr'], lay, 'wavefunction')}~" + ",".join(f"{p}>{t}" for p, t in w["ptr"])
+
+
+def dec_wfn_E(t, lay):
+    if t == "N":
+        return None
+    r, b, arrs, ptrs = t.split("~")
+    return {
+        "restricted": None if r == "-" else r == "1",
+        "basis": None if b == "-" else dec_basis(b),
+        "arr": dec_fields_E(arrs, lay, "wavefunction"),
+        "ptr": [tuple(x.split(">")) for x in ptrs.split(",") if x.strip()],
+    }
+
+
+def enc_E(spec):
+    lay = spec["lay"]
+    pe = f"{enc_optnat(spec['props']['natom'])}~{enc_fields_E(spec['props']['arr'], lay, 'properties')}"
+    if spec["op"] == "PE":
+        return "PE|" + pe
+    files = "N" if spec["files"] is None else ".".join(map(str, spec["files"]))
+    return "|".join(["AE", spec["wp"], "1" if spec["so"] else "0", spec["nf"], spec["driver"], pe, enc_wfn_E(spec["wfn"], lay),
+                     enc_rr_E(spec["rr"], lay), "1" if spec["stdout"] else "0", files])
+
+
+def dec_E(line):
+    f = line.split("|")
+    lay = {}
+
+    def props(t):
+        n, fs = t.split("~")
+        return {"natom": dec_optnat(n), "arr": dec_fields_E(fs, lay, "properties")}
+
+    if f[0] == "PE":
+        return {"op": "PE", "props": props(f[1]), "lay": lay}
+    if f[0] == "AE":
+        return {"op": "AE", "wp": f[1], "so": f[2] == "1", "nf": f[3], "driver": f[4], "props": props(f[5]), "wfn": dec_wfn_E(f[6], lay),
+                "rr": dec_rr_E(f[7], lay), "stdout": f[8] == "1", "files": None if f[9] == "N" else [int(x) for x in f[9].split(".") if x],
+                "lay": lay}
+    raise ValueError(line)
+
+
+def build_props_E(p, lay):
+    d = {}
+    if p["natom"] is not None:
+        d["calcinfo_natom"] = p["natom"]
+    for n, sh in p["arr"]:
+        d[n] = build_layout(n, sh, lay["properties." + n])
+    return d
+
+
+def build_AE(spec):
+    lay = spec["lay"]
+    d = build_A(spec)
+    d["properties"] = build_props_E(spec["props"], lay)
+    if not isinstance(spec["rr"], str):
+        d["return_result"] = build_layout("return_result", spec["rr"], lay["return_result"])
+    else:
+        d["return_result"] = RR_F if spec["rr"] == "f" else dict(RR_D)
+    if spec["wfn"] is not None:
+        w = build_wfn(spec["wfn"])
+        for n, sh in spec["wfn"]["arr"]:
+            w[n] = build_layout(n, sh, lay["wavefunction." + n])
+        d["wavefunction"] = w
+    return d
+
+
+def canon_fields_E(d, names):
+    return ",".join(f"{n}:{enc_shape(shape_of(d[n]))}:{tok(d[n])}" for n in names if d.get(n) is not None)
+
+
+def canon_props_E(p):
+    d = p.dict()
+    return f"{enc_optnat(d.get('calcinfo_natom'))}~{canon_fields_E(d, PROP_ARRS)}"
+
+
+def canon_wfn_E(w):
+    if w is None:
+        return "N"
+    d = w.dict()
+    r = "-" if d.get("restricted") is None else ("1" if d["restricted"] else "0")
+    b = "-" if getattr(w, "basis", None) is None else str(w.basis.nbf)
+    ptrs = [(n, d[n]) for n in PTR_KEYS if d.get(n) is not None]
+    return f"{r}~{b}~{canon_fields_E(d, ARR_KEYS)}~" + ",".join(f"{p}>{t}" for p, t in ptrs)
+
+
+def canon_rr_E(v):
+    if isinstance(v, dict):
+        return "d:" + tok_dict(v)
+    if isinstance(v, np.ndarray):
+        return f"{enc_shape(list(v.shape))}:{tok(v)}"
+    return "f:" + tok(np.array(v))
+
+
+def canon_AE(r):
+    files = ",".join(f"{file_id(k)}:{0 if v is None else 1}" for k, v in r.native_files.items())
+    return (f"ok props={canon_props_E(r.properties)} wfn={canon_wfn_E(r.wavefunction)} rr={canon_rr_E(r.return_result)} "
+            f"stdout={0 if r.stdout is None else 1} files={files}")
+
+
+def elements_kept(out, sect, obj_dict, names):
+    """the statement itself: every retained array holds exactly the supplied row-major elements"""
+    bad = []
+    for n in names:
+        v = obj_dict.get(n)
+        if v is None:
+            continue
+        got = np.ascontiguousarray(np.asarray(v, dtype=np.float64)).ravel()
+        if not np.array_equal(got, content(n, got.size)):
+            bad.append(f"{sect}.{n}")
+    return bad
 
 
 # ----------------------------------------------------------------------------------------------
@@ -837,12 +1140,57 @@ def gen_A(rng, wp, so, nf, restricted, driver):
     return spec
 
 
+def pick_lay(rng, shape):
+    for _ in range(8):
+        ly = rng.choice(LAYOUTS)
+        if lay_ok(shape, ly):
+            return ly
+    return "c"
+
+
+def refactor_shape(rng, sh):
+    """sometimes supply a 2-D array under another factorisation of the same size (transposed shape, (size/d, d)):
+    reshaping it to the implied shape must still go through the row-major element order, whatever the memory layout"""
+    if len(sh) != 2 or prod(sh) == 0 or rng.random() >= 0.3:
+        return sh
+    a, b = sh
+    cands = [[b, a]] + [[a * b // d, d] for d in (2, 3) if (a * b) % d == 0]
+    cands = [c for c in cands if c != [a, b]]
+    return rng.choice(cands) if cands else sh
+
+
+def add_layouts(rng, spec):
+    lay = {}
+    spec["props"]["arr"] = [(n, refactor_shape(rng, sh)) for n, sh in spec["props"]["arr"]]
+    if spec.get("wfn") is not None:
+        spec["wfn"]["arr"] = [(n, refactor_shape(rng, sh)) for n, sh in spec["wfn"]["arr"]]
+    if "rr" in spec and not isinstance(spec["rr"], str):
+        spec["rr"] = refactor_shape(rng, spec["rr"])
+    for n, sh in spec["props"]["arr"]:
+        lay["properties." + n] = pick_lay(rng, sh)
+    if spec.get("wfn") is not None:
+        for n, sh in spec["wfn"]["arr"]:
+            lay["wavefunction." + n] = pick_lay(rng, sh)
+    if "rr" in spec and not isinstance(spec["rr"], str):
+        lay["return_result"] = pick_lay(rng, spec["rr"])
+    spec["lay"] = lay
+    return spec
+
+
 def gen_cases(ctx: Ctx):
     rng = ctx.rng
     K = ctx.scale(30, 300)
     for wp, so, nf, restricted, driver in itertools.product(WPS, (True, False), NFS, (True, False), DRIVERS):
         for _ in range(K):
             yield gen_A(rng, wp, so, nf, restricted, driver)
+    KE = ctx.scale(8, 80)
+    for wp, so, nf, restricted, driver in itertools.product(WPS, (True, False), NFS, (True, False), DRIVERS):
+        for _ in range(KE):
+            spec = gen_A(rng, wp, so, nf, restricted, driver)
+            spec["op"] = "AE"
+            yield add_layouts(rng, spec)
+    for _ in range(ctx.scale(800, 8000)):
+        yield add_layouts(rng, {"op": "PE", "props": gen_props(rng, rng.random() < 0.6)})
     for _ in range(ctx.scale(2000, 20000)):
         yield {"op": "B", "basis": gen_basis(rng)}
     for _ in range(ctx.scale(1500, 15000)):
@@ -856,8 +1204,20 @@ def gen_cases(ctx: Ctx):
 # per-op checks
 
 
-def viol(out, kind, line, observed=None, expected=None, detail=""):
-    out.violations.append(Finding(kind, {"line": line}, observed=observed, expected=expected, detail=detail))
+def viol(out, kind, line, observed=None, expected=None, detail="", fields=None):
+    case = {"line": line}
+    if fields is not None:
+        case["fields"] = sorted(fields)
+    out.violations.append(Finding(kind, case, observed=observed, expected=expected, detail=detail))
+
+
+def hess_inplace_class(spec, obs):
+    """(labels a regression of 5bfcfbf) driver hessian, return_result an array of square size supplied in a non-C-contiguous
+    layout, bare AttributeError"""
+    if spec.get("op") != "AE" or spec["driver"] != "hessian" or isinstance(spec["rr"], str) or obs != "err other:AttributeError":
+        return False
+    size = prod(spec["rr"])
+    return spec["lay"].get("return_result") in ("f", "s") and isqrt(size) ** 2 == size
 
 
 def data_preserved(obj_dict, supplied):
@@ -916,7 +1276,10 @@ def check_A(ctx, out, spec, line, model_line):
         m = set(exp["misfits"])
         dip = {x for x in m if x.startswith("properties.") and x.split(".")[1] in UNVALIDATED_DIPOLES}
         ao = {x for x in m if x.startswith("wavefunction.") and x.split(".")[1] in UNVALIDATED_AO}
-        rest = m - dip - ao
+        loc = {x for x in m if x.startswith("wavefunction.") and x.split(".")[1] in UNVALIDATED_LOCORB}
+        rest = m - dip - ao - loc
+        if loc:
+            viol(out, KIND_LOCORB, line, obs, "rejection", f"{sorted(loc)} cannot be shaped (nbf, -1) but accepted (no validator registered)", fields=loc)
         if rest:
             viol(out, "oracle:accepts_misfit", line, obs, "rejection", f"accepted although {sorted(rest)} do(es) not fit")
         if dip:
@@ -930,7 +1293,10 @@ def check_A(ctx, out, spec, line, model_line):
         diff = canon_diff(obs_cmp, exp["canon"])
         dipf = [x for x in diff if x.startswith("properties.") and x.split(".")[1] in UNVALIDATED_DIPOLES]
         aof = [x for x in diff if x.startswith("wavefunction.") and x.split(".")[1] in UNVALIDATED_AO]
-        rest = [x for x in diff if x not in dipf and x not in aof]
+        locf = [x for x in diff if x.startswith("wavefunction.") and x.split(".")[1] in UNVALIDATED_LOCORB]
+        rest = [x for x in diff if x not in dipf and x not in aof and x not in locf]
+        if locf:
+            viol(out, KIND_LOCORB, line, obs, exp["canon"], f"{locf} not reshaped to (nbf, -1)", fields=locf)
         if dipf:
             viol(out, KIND_DIPOLE, line, obs, exp["canon"], f"{dipf} not reshaped to (3,)")
         if aof:
@@ -982,8 +1348,11 @@ def check_A(ctx, out, spec, line, model_line):
                 dipf.append(c)
             elif route == "json" and sect == "wavefunction" and name in UNVALIDATED_AO and flat_same(rd[sect][name], d2[sect].get(name)):
                 aof.append(c)
-            elif route == "json" and sect == "wavefunction" and name.startswith("localized_") and flat_same(rd[sect][name], d2[sect].get(name)):
-                out.count("A:json_flattens_localized(no demand)")
+            elif route == "json" and sect == "wavefunction" and name in UNVALIDATED_LOCORB and flat_same(rd[sect][name], d2[sect].get(name)):
+                viol(out, KIND_LOCORB, line, f"after JSON round trip {c} comes back flat", "unchanged",
+                     "unvalidated array is not reshaped when its stored (flat) form is validated again", fields=[c])
+            elif route == "json" and sect == "wavefunction" and name.startswith("localized_fock") and flat_same(rd[sect][name], d2[sect].get(name)):
+                out.count("A:json_flattens_localized_fock(no demand)")
             else:
                 rest.append(c)
         if dipf:
@@ -1162,11 +1531,107 @@ def check_T(ctx, out, spec, line, model_line):
         viol(out, "oracle:revalidate", line, detail="re-validating the dumped optimisation result changes it: " + str(first_diff(r.dict(), r2.dict())))
 
 
-CHECK = {"A": check_A, "B": check_B, "P": check_P, "T": check_T}
+def check_E(ctx, out, spec, line, model_line):
+    """AE / PE: correspondence on shapes AND element digests; oracle: retained arrays hold the supplied elements, and
+    validating the dumped object again reproduces the same line (elements included)"""
+    from qcelemental.models import AtomicResult, AtomicResultProperties
+
+    op = spec["op"]
+    kw_wfn = kw_rr = None
+    if op == "AE":
+        kwargs = build_AE(spec)
+        kw_props, kw_wfn, kw_rr = kwargs["properties"], kwargs.get("wavefunction"), kwargs["return_result"]
+    else:
+        kw_props = build_props_E(spec["props"], spec["lay"])
+    try:
+        if op == "AE":
+            r = AtomicResult(**kwargs)
+            obs = canon_AE(r)
+        else:
+            r = AtomicResultProperties(**kw_props)
+            obs = "ok " + canon_props_E(r)
+    except Exception as e:  # noqa
+        r, obs = None, canon_err(e)
+    out.evaluations += 1
+    out.count("op:" + op)
+    out.count(op + ":outcome:" + " ".join(obs.split()[:2] if obs.startswith("err") else ["ok"]))
+    for ly in spec["lay"].values():
+        out.count("E:layout:" + ly)
+    if model_line is not None and canon_model_line(model_line) != obs:
+        out.mismatches.append(Finding("mismatch", {"line": line}, observed=obs, expected=model_line, detail="implementation vs Lean element model"))
+    if op == "AE" and not in_quantifier_A(spec):
+        out.count("AE:outside_quantifier(correspondence only)")
+        return
+    if spec["lay"]:
+        out.nontrivial(line)
+    out.sample({"input": line, "impl": obs, "model": model_line}, limit=9)
+    # the caller's own arrays are left as they were (shape and elements), whether the construction succeeded or not
+    touched = []
+    for sect, d, items in (("properties", kw_props, spec["props"]["arr"]),
+                           ("wavefunction", kw_wfn or {}, (spec.get("wfn") or {}).get("arr", []) if op == "AE" else []),
+                           ("", {"return_result": kw_rr}, [("return_result", spec["rr"])] if op == "AE" and not isinstance(spec.get("rr"), str) else [])):
+        for n, sh in items:
+            v = d.get(n)
+            if isinstance(v, np.ndarray) and (list(v.shape) != list(sh) or not np.array_equal(np.ascontiguousarray(v).ravel(), content(n, prod(sh)))):
+                touched.append((sect + "." + n).lstrip("."))
+    if touched:
+        viol(out, KIND_CALLER_MODIFIED, line, f"{touched} changed in place", "inputs untouched",
+             "validation modified the array object the caller passed in (shape or elements)", fields=touched)
+    if r is None:
+        if hess_inplace_class(spec, obs):
+            viol(out, KIND_HESS_INPLACE, line, obs, model_line or "accepted, return_result reshaped to (k, k)",
+                 f"hessian return_result of shape {spec['rr']} in layout '{spec['lay']['return_result']}': AttributeError escapes instead of a reshape "
+                 "(or a ValidationError)", fields=["return_result"])
+        elif obs.split()[1] not in ("Validation", "NbfMismatch"):
+            viol(out, "oracle:error_class", line, obs, "accepted or ValidationError", "an exception that is not a ValidationError escaped")
+        return
+    rd = r.dict()
+    if op == "AE":
+        bad = elements_kept(out, "properties", rd["properties"], PROP_ARRS)
+        if r.wavefunction is not None:
+            bad += elements_kept(out, "wavefunction", rd["wavefunction"], ARR_KEYS)
+        if isinstance(r.return_result, np.ndarray):
+            got = np.ascontiguousarray(r.return_result).ravel()
+            if spec["rr"] == "f":
+                if not np.array_equal(got, np.array([RR_F])):
+                    bad.append("return_result")
+            elif not np.array_equal(got, content("return_result", got.size)):
+                bad.append("return_result")
+    else:
+        bad = elements_kept(out, "properties", rd, PROP_ARRS)
+    if bad:
+        viol(out, "oracle:elements_changed", line, obs, "row-major elements as supplied",
+             f"{bad}: the retained array does not hold the supplied elements in row-major order (layouts {spec['lay']})")
+        return
+    out.count(op + ":elements_kept")
+    try:
+        obs2 = canon_AE(AtomicResult(**rd)) if op == "AE" else "ok " + canon_props_E(AtomicResultProperties(**rd))
+    except Exception as e:  # noqa
+        obs2 = canon_err(e)
+    if strip_placeholders(obs2) != strip_placeholders(obs) if op == "AE" else obs2 != obs:
+        viol(out, "oracle:revalidate_elements", line, obs2, obs, "validating the dumped object again changes shapes or elements")
+
+
+CHECK = {"A": check_A, "B": check_B, "P": check_P, "T": check_T, "AE": check_E, "PE": check_E}
+
+
+def check_translator(ctx, out):
+    """the translator's reading of the text against the live classes the cases below run on"""
+    try:
+        spec = c20_spec.parse_sources(common.REPO)
+        bad = c20_spec.cross_check(spec)
+    except Exception as e:  # noqa
+        bad = [f"translator failed: {type(e).__name__}: {e}"]
+    out.count("translator:cross_check_items", 1)
+    for b in bad:
+        out.mismatches.append(Finding("translator-vs-live-classes", {"line": None}, observed=b, expected="agreement",
+                                      detail="harness/c20_spec.py (ast) and the imported classes (__fields__/__validators__) disagree"))
+    out.notes.append(f"translator cross-check against live classes: {'agree' if not bad else bad}")
 
 
 def run(ctx: Ctx) -> Outcome:
     out = Outcome()
+    check_translator(ctx, out)
     lines = [enc(s) for s in gen_cases(ctx)]
     model = [None] * len(lines)
     if ctx.model_available:
